@@ -117,8 +117,11 @@ def query_traversal(node, callback, is_table=False, is_target=False, parent_quer
         if node.cte is not None:
             array = []
             for cte in node.cte:
-                node_out = query_traversal(cte.query, callback, parent_query=node) or cte
-                array.append(node_out)
+                node_out = query_traversal(cte.query, callback, parent_query=node)
+                if node_out is not None:
+                    # replace the body of the CTE, not the CTE entry itself
+                    cte.query = node_out
+                array.append(cte)
             node.cte = array
 
         if node.where is not None:
@@ -179,7 +182,9 @@ def query_traversal(node, callback, is_table=False, is_target=False, parent_quer
                 node.from_arg = node_out
 
     elif isinstance(node, ast.WindowFunction):
-        query_traversal(node.function, callback, parent_query=parent_query)
+        node_out = query_traversal(node.function, callback, parent_query=parent_query)
+        if node_out is not None:
+            node.function = node_out
         if node.partition is not None:
             array = []
             for node2 in node.partition:
